@@ -392,6 +392,21 @@ theorem rollback_identity (cfg : Cfg) (z : Nodes) (ops more : List Op) (exc : Bo
   rw [hend, exit_ended _ _ (by rw [hstep]; exact hr.1), hstep, hr.2, hz]
   rfl
 
+/-- "… or that exits through an exception raised at any point" — the point being *inside the commit*: a callback the
+commit path consults (the versioned / B-tree zone's pruning policy) raises.  The version is withdrawn and nothing is
+published, whatever was done before and whatever is called afterwards or however the block is then left. -/
+theorem failed_commit_identity (cfg : Cfg) (z : Nodes) (ops more : List Op) (exc : Bool)
+    (h : ∀ op ∈ ops, op.isCommit = false) :
+    (exitTxn (run cfg (beginWrite z) (ops ++ Op.commitRaise :: more)).1 exc).zone = z := by
+  rw [run_append]
+  simp only [run]
+  have hz := run_zone cfg ops (beginWrite z) h
+  have hr := commitRaise_ends (run cfg (beginWrite z) ops).1
+  have hstep : (step cfg (run cfg (beginWrite z) ops).1 Op.commitRaise).1 = (endTxnRaise (run cfg (beginWrite z) ops).1).1 := rfl
+  have hend := run_ended cfg more (step cfg (run cfg (beginWrite z) ops).1 Op.commitRaise).1 (by rw [hstep]; exact hr.1)
+  rw [hend, exit_ended _ _ (by rw [hstep]; exact hr.1), hstep, hr.2, hz]
+  rfl
+
 /-- "… ended or read-only transactions refuse further use": once ended, every call raises `AlreadyEnded` and
 changes nothing. -/
 theorem ended_refuses (cfg : Cfg) (hgn : cfg.gn = false) (s : Txn) (h : s.ended = true) (op : Op) :
